@@ -6,7 +6,10 @@ package hash
 //
 // section cfg:  ctor=default|custom  hash=murmur|fnv|coll  mod=<m>  replicas=<int>  probes=<key,key,...>
 // ops:          add <node> | addr <node> <replicas> | addw <node> <weight> | remove <node> | get <key>
-// node / key:   <kind>:<repr>   kind s=string i=int j=int64 t=fmt.Stringer (struct) p=*Stringer
+//               gadd|gaddr|gaddw <node t:/p:> …   the same operation through a gated Stringer (see c15Gate)
+//               storm <readers> <gets> <key,…> <op_arg_arg;op_arg;…>   free-running readers against a writer
+// node / key:   <kind>:<repr>   kind s=string i=int j=int64 t=fmt.Stringer (struct) p=*Stringer u=uint64 o=bool
+//               e=error (value receiver) x=errors.New (repr "{msg}") f=float64 g=float32 b=[]byte z=nil   (repr = lang.Repr of the value)
 // observation:  mutating op:  nk=<len keys> nr=<len ring> nn=<len nodes> ck=<digest keys> rk=<digest ring>
 //                             g=<Get of every probe on the instance> f=<Get of every probe on a fresh
 //                             instance built from the current membership in repr order>
@@ -14,25 +17,62 @@ package hash
 // Everything is driven by the op text; the generator only produces op text.
 
 import (
+	"errors"
 	"fmt"
 	"hash/fnv"
 	"sort"
 	"strconv"
 	"strings"
+	"sync"
+	"sync/atomic"
 	"testing"
 
 	"github.com/zeromicro/go-zero/internal/verifh"
 )
 
-type c15Stringer struct{ s string }
+// c15Gate stops the goroutine that runs a mutating operation at every String() call on the operation's
+// own node that happens while the ring's lock is free (TryLock succeeds), i.e. outside the critical sections:
+// the code calls repr(node) -> String() before Remove takes the lock and between Remove and the insertion.
+// While it is stopped, reader goroutines look at the ring; nothing sleeps.
+type c15Gate struct {
+	armed atomic.Bool
+	h     *ConsistentHash
+	sig   chan struct{}
+	cont  chan struct{}
+}
 
-func (c c15Stringer) String() string { return c.s }
+func (g *c15Gate) hit() {
+	if g == nil || !g.armed.Load() {
+		return
+	}
+	if g.h.lock.TryLock() {
+		g.h.lock.Unlock()
+		g.sig <- struct{}{}
+		<-g.cont
+	}
+}
 
-type c15PtrStringer struct{ s string }
+type c15Err struct{ s string }
 
-func (c *c15PtrStringer) String() string { return c.s }
+func (e c15Err) Error() string { return e.s }
 
-func c15Value(tok string) any {
+type c15Stringer struct {
+	s string
+	g *c15Gate
+}
+
+func (c c15Stringer) String() string { c.g.hit(); return c.s }
+
+type c15PtrStringer struct {
+	s string
+	g *c15Gate
+}
+
+func (c *c15PtrStringer) String() string { c.g.hit(); return c.s }
+
+func c15Value(tok string) any { return c15GatedValue(tok, nil) }
+
+func c15GatedValue(tok string, g *c15Gate) any {
 	i := strings.IndexByte(tok, ':')
 	if i < 0 {
 		panic("verif: bad value token " + tok)
@@ -46,9 +86,38 @@ func c15Value(tok string) any {
 	case "j":
 		return verifh.Atoi64(r)
 	case "t":
-		return c15Stringer{r}
+		return c15Stringer{r, g}
 	case "p":
-		return &c15PtrStringer{r}
+		return &c15PtrStringer{r, g}
+	case "u":
+		v, err := strconv.ParseUint(r, 10, 64)
+		if err != nil {
+			panic("verif: bad uint " + tok)
+		}
+		return v
+	case "o":
+		return r == "true"
+	case "e":
+		return c15Err{r}
+	case "x":
+		// errors.New: lang.Repr dereferences the pointer and prints the struct, "{msg}"; %v prints msg
+		return errors.New(strings.TrimSuffix(strings.TrimPrefix(r, "{"), "}"))
+	case "f":
+		v, err := strconv.ParseFloat(r, 64)
+		if err != nil {
+			panic("verif: bad float " + tok)
+		}
+		return v
+	case "g":
+		v, err := strconv.ParseFloat(r, 32)
+		if err != nil {
+			panic("verif: bad float32 " + tok)
+		}
+		return float32(v)
+	case "b":
+		return []byte(r)
+	case "z":
+		return nil
 	}
 	panic("verif: bad value kind " + tok)
 }
@@ -65,6 +134,22 @@ func c15Token(v any) string {
 		return "t:" + x.s
 	case *c15PtrStringer:
 		return "p:" + x.s
+	case uint64:
+		return "u:" + strconv.FormatUint(x, 10)
+	case bool:
+		return "o:" + strconv.FormatBool(x)
+	case c15Err:
+		return "e:" + x.s
+	case error:
+		return "x:{" + x.Error() + "}"
+	case float64:
+		return "f:" + strconv.FormatFloat(x, 'f', -1, 64)
+	case float32:
+		return "g:" + strconv.FormatFloat(float64(x), 'f', -1, 32)
+	case []byte:
+		return "b:" + string(x)
+	case nil:
+		return "z:"
 	}
 	return fmt.Sprintf("?:%v", v)
 }
@@ -104,16 +189,18 @@ func c15Get(h *ConsistentHash, key any) (out string) {
 	return c15Token(v)
 }
 
-func c15Apply(h *ConsistentHash, op []string) bool {
+func c15Apply(h *ConsistentHash, op []string) bool { return c15ApplyGated(h, op, nil) }
+
+func c15ApplyGated(h *ConsistentHash, op []string, g *c15Gate) bool {
 	switch {
 	case op[0] == "add" && len(op) == 2:
-		h.Add(c15Value(op[1]))
+		h.Add(c15GatedValue(op[1], g))
 	case op[0] == "addr" && len(op) == 3:
-		h.AddWithReplicas(c15Value(op[1]), verifh.Atoi(op[2]))
+		h.AddWithReplicas(c15GatedValue(op[1], g), verifh.Atoi(op[2]))
 	case op[0] == "addw" && len(op) == 3:
-		h.AddWithWeight(c15Value(op[1]), verifh.Atoi(op[2]))
+		h.AddWithWeight(c15GatedValue(op[1], g), verifh.Atoi(op[2]))
 	case op[0] == "remove" && len(op) == 2:
-		h.Remove(c15Value(op[1]))
+		h.Remove(c15GatedValue(op[1], g))
 	default:
 		return false
 	}
@@ -122,7 +209,7 @@ func c15Apply(h *ConsistentHash, op []string) bool {
 
 const c15Mul = 1099511628211
 
-func c15Digest(h *ConsistentHash) (uint64, uint64) {
+func c15Digest(h *ConsistentHash) (int, int, int, uint64, uint64) {
 	h.lock.RLock()
 	defer h.lock.RUnlock()
 	ck := uint64(14695981039346656037)
@@ -145,7 +232,7 @@ func c15Digest(h *ConsistentHash) (uint64, uint64) {
 		}
 		rk = rk*c15Mul + 254
 	}
-	return ck, rk
+	return len(h.keys), len(h.ring), len(h.nodes), ck, rk
 }
 
 var (
@@ -154,9 +241,24 @@ var (
 		"s:localhost:1", "s:localhost:11", "s:localhost:2", "i:1", "i:11", "i:12", "i:111", "s:1", "t:n1",
 		"p:node1", "j:11", "s:a", "s:b", "s:srv-3", "s:10.0.0.7:6379", "s:10.0.0.7:63791", "i:-5", "i:0",
 		"t:cache", "s:cache", "s:cache1", "s:", "s:0",
+		// Stringer nodes as cache.New / kv.NewStore add them (repr = address), gateable
+		"t:10.0.0.7:6379", "t:10.0.0.7:63791", "p:10.0.0.7:6379", "p:10.0.0.8:6379", "t:node", "p:node", "t:node1", "p:n",
+		// values whose %v differs from their Repr, and the remaining Repr cases
+		"f:1.5", "f:1000000", "f:0.00001", "f:100000", "f:-2.5", "f:1", "g:0.1", "g:16777216", "b:hi", "b:node1",
+		"b:", "u:11", "u:1", "o:true", "e:boom", "e:node", "x:{node}", "z:",
 	}
 	c15Replicas = []int{0, 1, 2, 5, 10, 11, 12, 20, 50, 99, 100, 101, 110, 150, -1, -100}
-	c15Weights  = []int{0, 1, 9, 10, 11, 50, 80, 99, 100, 101, 150, 200, -5}
+	c15Weights  = []int{0, 1, 9, 10, 11, 50, 80, 99, 100, 101, 150, 200, -5,
+		// h.replicas*weight overflows int64: wraps to a negative, to zero-ish or to a small positive product
+		92233720368547759, 9223372036854775807, -9223372036854775808, 184467440737095517, 144115188075855873,
+		-92233720368547759, 1 << 57, 1<<57 + 1}
+	// lookup keys whose %v is not their Repr (the inner hash of a collision bucket uses %v)
+	c15OddKeys = []string{
+		"f:1.5", "f:1000000", "f:999999", "f:0.0001", "f:0.00001", "f:123456789.125", "f:-1000000", "f:0", "f:-0",
+		"f:NaN", "f:+Inf", "f:-Inf", "f:100000000000000000000", "f:0.000001234", "f:12345678", "f:0.5",
+		"g:0.1", "g:16777216", "g:340282350000000000000000000000000000000", "g:1000000", "g:0.000011",
+		"b:hi", "b:", "b:key7", "b:0", "u:18446744073709551615", "u:7", "o:true", "o:false", "e:boom", "x:{boom}", "z:",
+	}
 )
 
 // c15Fixed are the histories on which the code violated the property before the fix
@@ -167,12 +269,114 @@ func c15Fixed() []verifh.Section {
 		probes = append(probes, fmt.Sprintf("i:%d", j))
 	}
 	cfg := "ctor=default hash=murmur mod=0 replicas=100 probes=" + strings.Join(probes, ",")
+	odd := "ctor=custom hash=coll mod=7 replicas=100 probes=" + strings.Join(c15OddKeys, ",")
 	return []verifh.Section{
 		{Cfg: cfg, Ops: []string{"addr s:node1 10", "addr s:node 5", "remove s:node", "get i:7"}},
 		{Cfg: cfg, Ops: []string{"add s:node1", "add s:node", "remove s:node1", "add s:node1"}},
 		{Cfg: cfg, Ops: []string{"addr s:node 5", "add s:node1", "add s:x", "remove s:node", "addw s:node1 50", "remove s:x"}},
 		{Cfg: cfg, Ops: []string{"add i:1", "add i:11", "add s:1", "addr j:11 20", "remove t:1", "add p:11"}},
+		// every odd key kind through collision buckets of 3 nodes; float / []byte / nil nodes
+		{Cfg: odd, Ops: []string{"add s:a", "add s:b", "add f:1000000", "add b:hi", "addw z: 50", "remove f:1000000", "get f:0.00001", "get b:hi", "get z:"}},
+		// a single node re-weighted through the gate: readers see an empty ring in between
+		{Cfg: cfg, Ops: []string{"gadd t:10.0.0.7:6379", "gaddw t:10.0.0.7:6379 50", "gadd p:10.0.0.7:63791", "gaddr t:10.0.0.7:6379 20", "remove s:10.0.0.7:6379"}},
+		// weight overflow on the default ring
+		{Cfg: cfg, Ops: []string{"addw s:a 92233720368547759", "addw s:b 184467440737095517", "addw s:c 9223372036854775807", "addw s:d 200"}},
 	}
+}
+
+func c15Probes(r *verifh.Rng, nprobe int) []string {
+	probes := make([]string, 0, nprobe)
+	base := r.Intn(100000)
+	for j := 0; j < nprobe; j++ {
+		switch r.Intn(8) {
+		case 0, 1:
+			probes = append(probes, fmt.Sprintf("s:key%d", base+j))
+		case 2:
+			probes = append(probes, fmt.Sprintf("t:k%d", r.Intn(1000000)))
+		case 3:
+			probes = append(probes, c15OddKeys[r.Intn(len(c15OddKeys))])
+		case 4:
+			// floats around the %e thresholds (exponent < -4, >= 6) with a few significant digits
+			mant := r.Range(1, 9999)
+			switch r.Intn(4) {
+			case 0:
+				probes = append(probes, "f:"+strconv.FormatFloat(float64(mant)*1e3, 'f', -1, 64))
+			case 1:
+				probes = append(probes, "f:"+strconv.FormatFloat(float64(mant)/1e7, 'f', -1, 64))
+			case 2:
+				probes = append(probes, "g:"+strconv.FormatFloat(float64(float32(mant)/float32(64)), 'f', -1, 32))
+			default:
+				probes = append(probes, "f:"+strconv.FormatFloat(-float64(mant)/16, 'f', -1, 64))
+			}
+		default:
+			probes = append(probes, fmt.Sprintf("i:%d", base+j))
+		}
+	}
+	return probes
+}
+
+func c15Cfg(r *verifh.Rng) string {
+	switch x := r.Intn(10); {
+	case x < 3:
+		return "ctor=default hash=murmur mod=0 replicas=100"
+	case x < 5:
+		return fmt.Sprintf("ctor=custom hash=murmur mod=0 replicas=%d", r.Pick(0, 100, 101, 120, 150, -7, 99))
+	case x < 7:
+		return fmt.Sprintf("ctor=custom hash=fnv mod=0 replicas=%d", r.Pick(0, 100, 101, 128, 130, 160))
+	default:
+		return fmt.Sprintf("ctor=custom hash=coll mod=%d replicas=%d", r.Pick(7, 64, 256, 1024, 4096, 65536), r.Pick(0, 100, 110, 128))
+	}
+}
+
+func c15Pop(r *verifh.Rng) []string {
+	// a small population, biased to names whose virtual-node labels coincide ("n"+"10" = "n1"+"0")
+	npop := r.Range(1, 6)
+	pop := make([]string, 0, npop)
+	start := r.Intn(len(c15Names))
+	for j := 0; j < npop; j++ {
+		if r.Chance(3, 4) {
+			pop = append(pop, c15Names[(start+j)%len(c15Names)])
+		} else {
+			pop = append(pop, c15Names[r.Intn(len(c15Names))])
+		}
+	}
+	return pop
+}
+
+// c15Ops generates nops operations over pop; gated variants for Stringer nodes.
+func c15Ops(r *verifh.Rng, pop []string, nops int, present *[]string, sep string, gates bool) []string {
+	var ops []string
+	for j := 0; j < nops; j++ {
+		n := pop[r.Intn(len(pop))]
+		x := r.Intn(100)
+		if x >= 65 && x < 90 {
+			// removals mostly hit a node that was added before (by token; reprs may still coincide)
+			if len(*present) > 0 && r.Chance(4, 5) {
+				k := r.Intn(len(*present))
+				n = (*present)[k]
+				*present = append((*present)[:k], (*present)[k+1:]...)
+			}
+		} else if x < 65 {
+			*present = append(*present, n)
+		}
+		g := ""
+		if gates && (n[0] == 't' || n[0] == 'p') && r.Chance(1, 2) {
+			g = "g"
+		}
+		switch {
+		case x < 30:
+			ops = append(ops, g+"add"+sep+n)
+		case x < 50:
+			ops = append(ops, fmt.Sprintf("%saddr%s%s%s%d", g, sep, n, sep, c15Replicas[r.Intn(len(c15Replicas))]))
+		case x < 65:
+			ops = append(ops, fmt.Sprintf("%saddw%s%s%s%d", g, sep, n, sep, c15Weights[r.Intn(len(c15Weights))]))
+		case x < 90 || sep != " ":
+			ops = append(ops, "remove"+sep+n)
+		default:
+			ops = append(ops, fmt.Sprintf("get i:%d", r.Intn(1000000)))
+		}
+	}
+	return ops
 }
 
 func c15Gen(r *verifh.Rng) []verifh.Section {
@@ -181,120 +385,306 @@ func c15Gen(r *verifh.Rng) []verifh.Section {
 	secs := c15Fixed()
 	nsec := verifh.Scale(80, 1500)
 	for i := 0; i < nsec; i++ {
-		cfg := ""
-		switch x := r.Intn(10); {
-		case x < 3:
-			cfg = "ctor=default hash=murmur mod=0 replicas=100"
-		case x < 5:
-			cfg = fmt.Sprintf("ctor=custom hash=murmur mod=0 replicas=%d", r.Pick(0, 100, 101, 120, 150, -7, 99))
-		case x < 7:
-			cfg = fmt.Sprintf("ctor=custom hash=fnv mod=0 replicas=%d", r.Pick(0, 100, 101, 130, 160))
-		default:
-			cfg = fmt.Sprintf("ctor=custom hash=coll mod=%d replicas=%d", r.Pick(7, 64, 256, 1024, 4096, 65536), r.Pick(0, 100, 110, 128))
-		}
-		nprobe := verifh.Scale(64, 96)
-		probes := make([]string, 0, nprobe)
-		base := r.Intn(100000)
-		for j := 0; j < nprobe; j++ {
-			switch r.Intn(4) {
-			case 0:
-				probes = append(probes, fmt.Sprintf("s:key%d", base+j))
-			case 1:
-				probes = append(probes, fmt.Sprintf("t:k%d", r.Intn(1000000)))
-			default:
-				probes = append(probes, fmt.Sprintf("i:%d", base+j))
-			}
-		}
-		cfg += " probes=" + strings.Join(probes, ",")
-		// a small population, biased to names whose virtual-node labels coincide ("n"+"10" = "n1"+"0")
-		npop := r.Range(1, 6)
-		pop := make([]string, 0, npop)
-		start := r.Intn(len(c15Names))
-		for j := 0; j < npop; j++ {
-			if r.Chance(3, 4) {
-				pop = append(pop, c15Names[(start+j)%len(c15Names)])
-			} else {
-				pop = append(pop, c15Names[r.Intn(len(c15Names))])
-			}
-		}
-		var ops []string
-		nops := r.Range(3, verifh.Scale(16, 36))
+		cfg := c15Cfg(r)
+		cfg += " probes=" + strings.Join(c15Probes(r, verifh.Scale(64, 96)), ",")
+		pop := c15Pop(r)
 		var present []string
-		for j := 0; j < nops; j++ {
-			n := pop[r.Intn(len(pop))]
-			x := r.Intn(100)
-			if x >= 65 && x < 90 {
-				// removals mostly hit a node that was added before (by token; reprs may still coincide)
-				if len(present) > 0 && r.Chance(4, 5) {
-					k := r.Intn(len(present))
-					n = present[k]
-					present = append(present[:k], present[k+1:]...)
-				}
-			} else if x < 65 {
-				present = append(present, n)
+		ops := c15Ops(r, pop, r.Range(3, verifh.Scale(16, 36)), &present, " ", true)
+		secs = append(secs, verifh.Section{Cfg: cfg, Ops: ops})
+	}
+	return secs
+}
+
+// c15GenRace: sections for the -race run: a little set-up, then free-running readers against writer programs
+// (storm) and gated operations.
+func c15GenRace(r *verifh.Rng) []verifh.Section {
+	r = r.Fork()
+	r.Uint64()
+	var secs []verifh.Section
+	nsec := verifh.Scale(14, 160)
+	for i := 0; i < nsec; i++ {
+		cfg := c15Cfg(r)
+		probes := c15Probes(r, 24)
+		cfg += " probes=" + strings.Join(probes, ",")
+		var pop []string
+		for _, n := range c15Pop(r) {
+			if !strings.ContainsAny(n, "_;") {
+				pop = append(pop, n)
 			}
-			switch {
-			case x < 30:
-				ops = append(ops, "add "+n)
-			case x < 50:
-				ops = append(ops, fmt.Sprintf("addr %s %d", n, c15Replicas[r.Intn(len(c15Replicas))]))
-			case x < 65:
-				ops = append(ops, fmt.Sprintf("addw %s %d", n, c15Weights[r.Intn(len(c15Weights))]))
-			case x < 90:
-				ops = append(ops, "remove "+n)
-			default:
-				ops = append(ops, fmt.Sprintf("get i:%d", r.Intn(1000000)))
+		}
+		if len(pop) == 0 {
+			pop = []string{"t:node"}
+		}
+		var present []string
+		ops := c15Ops(r, pop, r.Range(1, 4), &present, " ", true)
+		for k := r.Range(1, 3); k > 0; k-- {
+			keys := make([]string, 0, 8)
+			for j := 0; j < 8; j++ {
+				keys = append(keys, probes[r.Intn(len(probes))])
 			}
+			prog := c15Ops(r, pop, r.Range(2, 8), &present, "_", false)
+			ops = append(ops, fmt.Sprintf("storm %d %d %s %s", r.Range(2, 6), 40, strings.Join(keys, ","), strings.Join(prog, ";")))
+			ops = append(ops, c15Ops(r, pop, r.Range(0, 2), &present, " ", true)...)
 		}
 		secs = append(secs, verifh.Section{Cfg: cfg, Ops: ops})
 	}
 	return secs
 }
 
-func TestVerifC15(t *testing.T) {
-	secs := verifh.Sections(c15Gen)
-	verifh.Run(t, secs, func(cfg verifh.Cfg) (func(op []string) string, func()) {
-		h := c15New(cfg)
-		var probes []any
-		if p := cfg.Str("probes", ""); p != "" {
-			for _, tok := range strings.Split(p, ",") {
-				probes = append(probes, c15Value(tok))
+// c15Snapshot: what several reader goroutines see on a ring that no writer touches meanwhile.
+func c15Snapshot(h *ConsistentHash, probes []any) string {
+	const readers = 4
+	res := make([]string, readers)
+	var wg sync.WaitGroup
+	for i := 0; i < readers; i++ {
+		wg.Add(1)
+		go func(i int) {
+			defer wg.Done()
+			g := make([]string, len(probes))
+			for j := range probes {
+				jj := (j + i*7) % len(probes)
+				g[jj] = c15Get(h, probes[jj])
 			}
+			res[i] = strings.Join(g, ",")
+		}(i)
+	}
+	wg.Wait()
+	for i := 1; i < readers; i++ {
+		if res[i] != res[0] {
+			return "READERS-DISAGREE"
 		}
-		// current membership as the last add operation per repr (derived from the op text only)
-		last := map[string][]string{}
-		step := func(op []string) string {
-			if len(op) == 2 && op[0] == "get" {
-				return c15Get(h, c15Value(op[1]))
+	}
+	nk, nr, nn, ck, rk := c15Digest(h)
+	return fmt.Sprintf("nk=%d nr=%d nn=%d ck=%d rk=%d g=%s", nk, nr, nn, ck, rk, res[0])
+}
+
+// c15Gated runs the operation in its own goroutine and takes a snapshot at every signal of the gate.
+func c15Gated(h *ConsistentHash, op []string, probes []any) (snaps []string, ok bool) {
+	g := &c15Gate{h: h, sig: make(chan struct{}), cont: make(chan struct{})}
+	g.armed.Store(true)
+	type result struct {
+		ok bool
+		p  any
+	}
+	done := make(chan result, 1)
+	go func() {
+		var res result
+		defer func() {
+			res.p = recover()
+			done <- res
+		}()
+		res.ok = c15ApplyGated(h, op, g)
+	}()
+	for {
+		select {
+		case <-g.sig:
+			snaps = append(snaps, c15Snapshot(h, probes))
+			g.cont <- struct{}{}
+		case res := <-done:
+			g.armed.Store(false)
+			if res.p != nil {
+				panic(res.p)
 			}
-			if !c15Apply(h, op) {
+			return snaps, res.ok
+		}
+	}
+}
+
+type c15Seen struct {
+	ki, lo, hi int
+	res        string
+}
+
+// c15Storm: nReaders goroutines call Get in a loop while this goroutine runs prog. Every Get is stamped with
+// lo = writer operations completed before it began and hi = operations begun before it returned.
+func c15Storm(h *ConsistentHash, nReaders, gets int, keys []any, prog [][]string, apply func(op []string) bool) (string, bool) {
+	var started, done atomic.Int64
+	var stop atomic.Bool
+	sets := make([]map[c15Seen]struct{}, nReaders)
+	var ready, wg sync.WaitGroup
+	for i := 0; i < nReaders; i++ {
+		sets[i] = map[c15Seen]struct{}{}
+		ready.Add(1)
+		wg.Add(1)
+		go func(i int) {
+			defer wg.Done()
+			ready.Done()
+			for n := 0; n < 200*gets && !(stop.Load() && n >= gets); n++ {
+				ki := (n + i*3) % len(keys)
+				lo := int(done.Load())
+				res := c15Get(h, keys[ki])
+				hi := int(started.Load())
+				sets[i][c15Seen{ki, lo, hi, res}] = struct{}{}
+			}
+		}(i)
+	}
+	ready.Wait()
+	ok := true
+	for j, op := range prog {
+		started.Store(int64(j + 1))
+		if !apply(op) {
+			ok = false
+		}
+		done.Store(int64(j + 1))
+	}
+	stop.Store(true)
+	wg.Wait()
+	all := map[c15Seen]struct{}{}
+	for _, s := range sets {
+		for k := range s {
+			all[k] = struct{}{}
+		}
+	}
+	out := make([]string, 0, len(all))
+	for k := range all {
+		out = append(out, fmt.Sprintf("%d/%d/%d/%s", k.ki, k.lo, k.hi, k.res))
+	}
+	sort.Strings(out)
+	return strings.Join(out, ","), ok
+}
+
+// c15Guard runs f as a subtest when t is given: with -race a data race detected while f runs fails the
+// subtest ("race detected during execution of test"), and the observation gets the token DATARACE.
+func c15Guard(t *testing.T, name string, f func()) (raced bool) {
+	if t == nil {
+		f()
+		return false
+	}
+	return !t.Run(name, func(*testing.T) { f() })
+}
+
+func c15Start(t *testing.T) func(cfg verifh.Cfg) (func(op []string) string, func()) {
+	return func(cfg verifh.Cfg) (func(op []string) string, func()) { return c15StartCfg(t, cfg) }
+}
+
+func c15StartCfg(t *testing.T, cfg verifh.Cfg) (func(op []string) string, func()) {
+	h := c15New(cfg)
+	// sequential twin: receives the same operations, is never touched by two goroutines; it provides the
+	// implementation's OWN sequential answers that concurrent observations are compared with
+	h2 := c15New(cfg)
+	var probes []any
+	if p := cfg.Str("probes", ""); p != "" {
+		for _, tok := range strings.Split(p, ",") {
+			probes = append(probes, c15Value(tok))
+		}
+	}
+	// current membership as the last add operation per repr (derived from the op text only)
+	last := map[string][]string{}
+	track := func(op []string) {
+		r := repr(c15Value(op[1]))
+		if op[0] == "remove" {
+			delete(last, r)
+		} else {
+			last[r] = op
+		}
+	}
+	final := func() string {
+		reprs := make([]string, 0, len(last))
+		for k := range last {
+			reprs = append(reprs, k)
+		}
+		sort.Strings(reprs)
+		fresh := c15New(cfg)
+		for _, k := range reprs {
+			c15Apply(fresh, last[k])
+		}
+		g := make([]string, len(probes))
+		f := make([]string, len(probes))
+		for i, p := range probes {
+			g[i] = c15Get(h, p)
+			f[i] = c15Get(fresh, p)
+		}
+		nk, nr, nn, ck, rk := c15Digest(h)
+		return fmt.Sprintf("nk=%d nr=%d nn=%d ck=%d rk=%d g=%s f=%s", nk, nr, nn, ck, rk, strings.Join(g, ","), strings.Join(f, ","))
+	}
+	step := func(op []string) string {
+		if len(op) == 2 && op[0] == "get" {
+			return c15Get(h, c15Value(op[1]))
+		}
+		if len(op) == 5 && op[0] == "storm" {
+			var keys []any
+			for _, tok := range strings.Split(op[3], ",") {
+				keys = append(keys, c15Value(tok))
+			}
+			var prog [][]string
+			if op[4] != "-" {
+				for _, o := range strings.Split(op[4], ";") {
+					prog = append(prog, strings.Split(o, "_"))
+				}
+			}
+			// the implementation's sequential answers: after j operations (S<j>) and, for an adding operation j,
+			// between its Remove and its insertion (M<j>)
+			answers := func() string {
+				a := make([]string, len(keys))
+				for i, k := range keys {
+					a[i] = c15Get(h2, k)
+				}
+				return strings.Join(a, ";")
+			}
+			var ref []string
+			for j, o := range prog {
+				ref = append(ref, fmt.Sprintf("S%d/%s", j, answers()))
+				if len(o) >= 2 && o[0] != "remove" {
+					h2.Remove(c15Value(o[1]))
+					ref = append(ref, fmt.Sprintf("M%d/%s", j, answers()))
+				}
+				if len(o) < 2 || !c15Apply(h2, o) {
+					return "bad-op"
+				}
+			}
+			ref = append(ref, fmt.Sprintf("S%d/%s", len(prog), answers()))
+			var tuples string
+			ok := true
+			raced := c15Guard(t, "storm", func() {
+				tuples, ok = c15Storm(h, verifh.Atoi(op[1]), verifh.Atoi(op[2]), keys, prog, func(o []string) bool {
+					if len(o) < 2 || !c15Apply(h, o) {
+						return false
+					}
+					track(o)
+					return true
+				})
+			})
+			if !ok {
 				return "bad-op"
 			}
-			r := repr(c15Value(op[1]))
-			if op[0] == "remove" {
-				delete(last, r)
-			} else {
-				last[r] = op
+			out := final() + " r=" + tuples + " q=" + strings.Join(ref, ",")
+			if raced {
+				out += " DATARACE"
 			}
-			reprs := make([]string, 0, len(last))
-			for k := range last {
-				reprs = append(reprs, k)
-			}
-			sort.Strings(reprs)
-			fresh := c15New(cfg)
-			for _, k := range reprs {
-				c15Apply(fresh, last[k])
-			}
-			g := make([]string, len(probes))
-			f := make([]string, len(probes))
-			for i, p := range probes {
-				g[i] = c15Get(h, p)
-				f[i] = c15Get(fresh, p)
-			}
-			ck, rk := c15Digest(h)
-			return fmt.Sprintf("nk=%d nr=%d nn=%d ck=%d rk=%d g=%s f=%s", len(h.keys), len(h.ring), len(h.nodes),
-				ck, rk, strings.Join(g, ","), strings.Join(f, ","))
+			return out
 		}
-		return step, nil
-	})
+		if len(op) >= 2 && (op[0] == "gadd" || op[0] == "gaddr" || op[0] == "gaddw") {
+			plain := append([]string{op[0][1:]}, op[1:]...)
+			if k := op[1][0]; k != 't' && k != 'p' {
+				return "bad-op"
+			}
+			var snaps []string
+			ok := true
+			raced := c15Guard(t, "gated", func() { snaps, ok = c15Gated(h, plain, probes) })
+			if !ok || !c15Apply(h2, plain) {
+				return "bad-op"
+			}
+			track(plain)
+			out := fmt.Sprintf("sig=%d | %s | %s", len(snaps), strings.Join(snaps, " | "), final())
+			if raced {
+				out += " DATARACE"
+			}
+			return out
+		}
+		if len(op) < 2 || !c15Apply(h, op) || !c15Apply(h2, op) {
+			return "bad-op"
+		}
+		track(op)
+		return final()
+	}
+	return step, nil
+}
+
+func TestVerifC15(t *testing.T) {
+	verifh.Run(t, verifh.Sections(c15Gen), c15Start(nil))
+}
+
+// TestVerifC15Race is built with -race: storms of concurrent readers and gated operations.
+func TestVerifC15Race(t *testing.T) {
+	verifh.Run(t, verifh.Sections(c15GenRace), c15Start(t))
 }
